@@ -17,8 +17,10 @@ RULE = (
     "each run = one seed -> one HTTP/3 session written through the real sending API of a client and a server "
     "H3Connection on recording transports (requests, responses, bodies of 0/1/frame-boundary sizes, trailers, "
     "content-length, push promises + pushed responses, WebTransport sessions with uni/bidi streams and datagrams; "
-    "header lists with static, literal and dynamic QPACK entries, no decoder feedback so that header blocks may "
-    "reference not-yet-delivered insertions), giving one byte string per QUIC stream and direction; fresh receiving "
+    "header lists with static, literal and dynamic QPACK entries - sticky fields repeated across messages -, no "
+    "decoder feedback so that header blocks may reference not-yet-delivered insertions; 30 % burst sessions: a "
+    "warm-up exchange then 17..36 concurrent short exchanges; 60 % duplex: the receivers also perform their own "
+    "role's sends so that streams finish in both directions), giving one byte string per QUIC stream and direction; fresh receiving "
     "H3Connections get these bytes (a) canonically (whole streams, sender order), (b) variant 'random': 3 "
     "chooser-drawn splittings x interleavings per direction, (c) variant 'exhaustive_short': every one of the "
     "2^(n-1) splittings (x FIN with the last chunk / alone) of one stream of <= 12 bytes, (d) variant 'truncated': "
@@ -33,7 +35,11 @@ ASSUMPTIONS = [
     "pylsqpack (ls-qpack) is third-party code and trusted to encode/decode consistently",
     "the sending endpoints only learn each other's control stream (SETTINGS, MAX_PUSH_ID): without decoder "
     "feedback every dynamic-table reference stays 'at risk', which is what lets any interleaving be a legal one; "
-    "at most 16 header-carrying streams per direction so the peer's QPACK_BLOCKED_STREAMS=16 cannot be exceeded",
+    "keeping the streams at risk within the peer's QPACK_BLOCKED_STREAMS=16 is the sending encoder's duty, also "
+    "in burst sessions with 17..36 concurrent exchanges",
+    "duplex sessions: a receiving client has performed the client's HEADERS/DATA sends before anything arrives; a "
+    "receiving server performs the response sends of a stream right after that request's headers were delivered "
+    "(push promises and WebTransport writes are not replayed on receivers)",
     "informational (1xx) responses are not generated: the aioquic sending API models a second HEADERS frame as "
     "trailers",
     "the reverse direction of a WebTransport bidirectional stream is not generated (only the initiator writes)",
@@ -78,6 +84,25 @@ class Session:
         self.h = ch.stream("headers")
         self.small = small
         self.wt = cfg.chance(0.5)
+        # burst: more than 16 concurrent header-carrying streams per direction (the encoder must
+        # keep the streams it puts at risk of blocking within the peer's QPACK_BLOCKED_STREAMS)
+        self.burst = (not small) and cfg.weighted([7, 3]) == 1
+        # duplex: the receiving endpoints also perform their own role's sends (a client has sent
+        # its requests; a server answers a request once its headers arrived)
+        self.duplex = cfg.chance(0.6)
+        # fields repeated in most header lists: ls-qpack inserts a field into the dynamic table
+        # the second time it sees it and references it from then on
+        self.sticky = []
+        self.sticky_trailer = []
+        if not small:
+            hs = self.h
+            for i in range(1 + hs.choose(3)):
+                self.sticky.append((b"x-sticky-%d" % i, b"sticky-value-%d-%d" % (i, hs.choose(50))))
+            if hs.chance(0.5):
+                self.sticky.append((b"user-agent", b"verif/1.%d" % hs.choose(10)))
+            self.sticky_trailer = [(b"x-sticky-trailer", b"t%d" % hs.choose(50))]
+        self.p_sticky = 0.95 if self.burst else 0.6
+        self.oplog = {"c2s": [], "s2c": []}
         self.qc = FakeQuic(True)
         self.qs = FakeQuic(False)
         self.hc = H3Connection(self.qc, enable_webtransport=self.wt)
@@ -95,7 +120,8 @@ class Session:
         self.sessions = []
         self.n_wt_streams = 0
         self.counts = {"request": 0, "response": 0, "push": 0, "wt_session": 0, "wt_uni": 0, "wt_bidi": 0,
-                       "datagram": 0, "trailers": 0, "content_length": 0, "open_end": 0}
+                       "datagram": 0, "trailers": 0, "content_length": 0, "open_end": 0, "burst_session": 0,
+                       "bodyless_fin_on_headers": 0, "fin_on_trailers": 0}
         self._exchange_control()
         self._script()
         self.c2s = Streams(self.qc.writes, self.qc.datagrams)
@@ -117,11 +143,17 @@ class Session:
             self.hc.handle_event(StreamDataReceived(data=data, end_stream=fin, stream_id=sid))
 
     # ---- message plans
-    def _body_plan(self, hdrs):
+    def _body_plan(self, hdrs, light=False):
         s, small = self.s, self.small
         steps = []
-        n_data = s.geometric(2 if small else 4, 0.6 if small else 1.0)
-        sizes = [gen_body_size(s, small) for _ in range(n_data)]
+        if self.sticky and s.chance(self.p_sticky):
+            hdrs = hdrs + self.sticky
+        if light:  # burst / warm-up: many short messages
+            n_data = s.weighted([3, 2, 1])
+            sizes = [(0, 1, 3, 17, 64)[s.choose(5)] for _ in range(n_data)]
+        else:
+            n_data = s.geometric(2 if small else 4, 0.6 if small else 1.0)
+            sizes = [gen_body_size(s, small) for _ in range(n_data)]
         trailers = s.chance(0.25)
         if s.chance(0.3):
             hdrs = hdrs + [(b"content-length", b"%d" % sum(sizes))]
@@ -130,13 +162,38 @@ class Session:
         for z in sizes:
             steps.append(["D", z, False])
         if trailers:
-            steps.append(["H", gen_trailers(self.h, small), False])
+            tr = gen_trailers(self.h, small)
+            if self.sticky_trailer and s.chance(self.p_sticky):
+                tr = tr + self.sticky_trailer
+            steps.append(["H", tr, False])
             self.counts["trailers"] += 1
-        if s.weighted([6, 1]) == 0:
+        if s.weighted([6, 1]) == 0 or (light and s.chance(0.8)):
             steps[-1][2] = True  # FIN with the last frame
+            if len(steps) == 1:
+                self.counts["bodyless_fin_on_headers"] += 1
+            elif trailers:
+                self.counts["fin_on_trailers"] += 1
         else:
             self.counts["open_end"] += 1
         return steps
+
+    def _new_request(self, light=False):
+        sid = self.qc.get_next_available_stream_id()
+        self.n_requests += 1
+        self.kind["c2s"][sid] = "request"
+        self.requests.append(sid)
+        m = Msg("c2s", sid, self._body_plan(gen_request_headers(self.h, self.small), light))
+        self.msgs.append(m)
+        self.counts["request"] += 1
+        return m
+
+    def _new_response(self, sid, light=False):
+        self.requests.remove(sid)
+        self.kind["s2c"][sid] = "response"
+        m = Msg("s2c", sid, self._body_plan(gen_response_headers(self.h, self.small), light))
+        self.msgs.append(m)
+        self.counts["response"] += 1
+        return m
 
     def _create(self):
         s = self.s
@@ -204,11 +261,15 @@ class Session:
         if kind == "H":
             h3.send_headers(m.sid, arg, end_stream=fin)
             norm_add(exp, m.sid, ("H", tuple(arg), m.push_id))
+            if m.push_id is None:
+                self.oplog[m.dir].append(("H", m.sid, arg, fin))
         elif kind == "D":
             data = body_bytes(m.sid, m.off, arg)
             m.off += arg
             h3.send_data(m.sid, data, end_stream=fin)
             norm_data(exp, m.sid, "D", m.push_id, data)
+            if m.push_id is None:
+                self.oplog[m.dir].append(("D", m.sid, data, fin))
         elif kind == "P":
             push_sid = h3.send_push_promise(m.sid, arg)
             push_id = self.n_push
@@ -235,7 +296,26 @@ class Session:
 
     def _script(self):
         s = self.s
+        if self.burst:
+            self.counts["burst_session"] += 1
+            # warm-up exchange written completely, in order
+            for _ in range(1 + s.choose(2)):
+                rq = self._new_request(light=True)
+                while rq.pos < len(rq.steps):
+                    self._step(rq)
+                rs = self._new_response(rq.sid, light=True)
+                while rs.pos < len(rs.steps):
+                    self._step(rs)
+            # then more than 16 concurrent exchanges
+            n = 17 + s.choose(20)
+            burst = [self._new_request(light=True) for _ in range(n)]
+            answered = s.weighted([3, 1])  # 0: every request is answered
+            for rq in burst:
+                if answered == 0 or s.chance(0.5):
+                    self._new_response(rq.sid, light=True)
         budget = 1 + (s.choose(3) if self.small else s.geometric(10, 3.5))
+        if self.burst:
+            budget = s.choose(3)
         guard = 0
         while guard < 400:
             guard += 1
@@ -256,8 +336,17 @@ class Result:
     __slots__ = ("store", "closed", "raised", "blocked", "resumed", "n")
 
 
-def deliver(is_client, wt, schedule):
-    """feed a schedule to a FRESH receiving H3Connection"""
+def local_send(h3, op):
+    if op[0] == "H":
+        h3.send_headers(op[1], op[2], end_stream=op[3])
+    else:
+        h3.send_data(op[1], op[2], end_stream=op[3])
+
+
+def deliver(is_client, wt, schedule, local=None):
+    """feed a schedule to a FRESH receiving H3Connection. local: the HEADERS/DATA sends of the
+    receiver's own role (same API calls as in the session): a client performs them before anything
+    arrives, a server those of a stream once the request headers of that stream were delivered"""
     from aioquic.h3.connection import H3Connection
     from aioquic.quic.events import DatagramFrameReceived, StreamDataReceived
 
@@ -268,6 +357,14 @@ def deliver(is_client, wt, schedule):
     r.raised = None
     r.blocked = set()
     streams = h3._stream
+    pending = {}
+    if local:
+        if is_client:
+            for op in local:
+                local_send(h3, op)
+        else:
+            for op in local:
+                pending.setdefault(op[1], []).append(op)
     try:
         for d in schedule:
             if d[0] == "s":
@@ -279,6 +376,11 @@ def deliver(is_client, wt, schedule):
                 evs = h3.handle_event(DatagramFrameReceived(data=d[1]))
             if evs:
                 normalise_into(r.store, evs)
+                if pending:
+                    for ev in evs:
+                        if type(ev).__name__ == "HeadersReceived" and ev.stream_id in pending:
+                            for op in pending.pop(ev.stream_id):
+                                local_send(h3, op)
     except Violation:
         raise
     except Exception as exc:  # an exception out of handle_event is part of the verdict
@@ -438,6 +540,8 @@ def run_one(seed, tier="quick", variant=None, replay=None):
     def account(r, direction):
         extra["deliveries"] += 1
         bump("blocked_stream", len(r.blocked))
+        if len(r.blocked) >= 16:
+            bump("deliveries_with_16_or_more_blocked_streams")
         bump("blocked_stream_resumed", r.resumed)
         for sid in r.blocked:
             states.add(("blocked", direction, sess.kind[direction].get(sid, "?")))
@@ -455,9 +559,15 @@ def run_one(seed, tier="quick", variant=None, replay=None):
                 ("s2c", sess.s2c, True, sess.hs._local_encoder_stream_id))
         info["streams"] = {d: {str(sid): len(st.data[sid]) for sid in st.order} for d, st, _, _ in dirs}
         canon = {}
+        local = {"c2s": None, "s2c": None}
+        if sess.duplex:  # the receiver of one direction is the sender of the other one
+            local = {"c2s": sess.oplog["s2c"], "s2c": sess.oplog["c2s"]}
+            bump("duplex_session")
+        info["duplex"] = sess.duplex
+        info["burst"] = sess.burst
         for d, st, rc, enc in dirs:
             dig.update(repr([(sid, st.data[sid], st.fin[sid]) for sid in st.order]).encode())
-            r = deliver(rc, sess.wt, canonical_schedule(st))
+            r = deliver(rc, sess.wt, canonical_schedule(st), local[d])
             account(r, d)
             canon[d] = r
             compare("c14.roundtrip", "%s canonical delivery vs. what was submitted to the sending API" % d,
@@ -483,7 +593,7 @@ def run_one(seed, tier="quick", variant=None, replay=None):
                     if sch != canonical_schedule(st):
                         nontrivial[0] = True
                     sigs.append(sched_sig(sch))
-                    r = deliver(rc, sess.wt, sch)
+                    r = deliver(rc, sess.wt, sch, local[d])
                     account(r, d)
                     compare("c14.chunking", "%s schedule #%d vs. canonical delivery" % (d, rep), sess.kind[d],
                             canon[d].store, r.store, r.closed, r.raised,
@@ -527,7 +637,7 @@ def run_one(seed, tier="quick", variant=None, replay=None):
                             sch.extend(rest[len(pieces):])
                         else:  # everything else first (for a request: after the encoder stream), pieces last
                             sch = others + pieces if first % 2 == 0 else pieces + others
-                        r = deliver(rc, sess.wt, sch)
+                        r = deliver(rc, sess.wt, sch, local[d])
                         account(r, d)
                         extra["splittings_checked"] += 1
                         nontrivial[0] = True
@@ -569,7 +679,7 @@ def run_one(seed, tier="quick", variant=None, replay=None):
                 t.data[sid] = st.data[sid][:k]
                 t.fin[sid] = True
                 t.bounds[sid] = [b for b in st.bounds[sid] if b < k] or [0]
-                rc0 = deliver(rc, sess.wt, canonical_schedule(t))
+                rc0 = deliver(rc, sess.wt, canonical_schedule(t), local[d])
                 account(rc0, d)
                 v0 = verdict(rc0)
                 extra["truncated_cases"] += 1
@@ -582,7 +692,7 @@ def run_one(seed, tier="quick", variant=None, replay=None):
                     sch = target_schedule(ch, t, sid, "-trunc")
                     nontrivial[0] = True
                     sigs.append((k, sched_sig(sch)))
-                    r = deliver(rc, sess.wt, sch)
+                    r = deliver(rc, sess.wt, sch, local[d])
                     account(r, d)
                     v = verdict(r)
                     if v != v0:
@@ -625,6 +735,11 @@ def run_one(seed, tier="quick", variant=None, replay=None):
         "reason": reason, "steps": extra["deliveries"], "sim_time": 0.0, "fired": {}, "probes": probes,
         "states": states, "extra": extra, "digest": dig.hexdigest()[:32], "inconclusive": False, "aborted": False,
     }
+    # the set of choice streams must not depend on where a run stopped (the shrinker iterates
+    # over the names of the run it started from)
+    for name in ["config", "script", "headers", "target", "split-trunc", "order-trunc"] + [
+            "%s-%s-%d" % (a, d, i) for a in ("split", "order") for d in ("c2s", "s2c") for i in range(3)]:
+        ch.stream(name)
     out.choices = ch.dump()
     out.nontrivial = nontrivial[0]
     out.signature = stable_hash((variant, dig.hexdigest(), sigs))
